@@ -627,14 +627,18 @@ def run(rep, ctx):
         r04_flag(rep, M, "R04.6")
         from . import c11 as _c11i
         _c11i.id_without_parameters(rep, M, "R04.6")
-    rep.rule("R04.14", "a monolayer's prototype cell goes through the 2D branch of the conventional cell: normalisation steps on every path, the non-periodic axis "
-                       "located by magnitude in spglib's transformation matrix whatever the orientation of the cell's basis (shared with C11)")
+    rep.rule("R04.14", "a monolayer's prototype cell goes through the 2D branch of the conventional cell: the non-periodic axis is located by magnitude, with a "
+                       "tolerance, in the rows of spglib's transformation matrix, whatever the orientation of the cell's basis (shared with C11)")
     with rep.guard("R04.14"):
         from . import c11 as _c11
-        _obj, _br = _c11.r11_1(rep, M, "R04.14")
+        from ..report import Filtered as _Fl
+        # only what can make the analysis of a prototype cell fail or change its id: how the non-periodic axis is located. Centring, wrapping and the
+        # thickness of the conventional cell move atoms, which the id, the space group and the Wyckoff occupation do not see (they are C11's)
+        _axis = _Fl(rep, lambda c: "axis" in c)
+        _obj, _br = _c11.r11_1(_Fl(rep, lambda c: False), M, "R04.14")
         if _obj is not None:
-            _c11.r11_2(rep, M, "R04.14", _obj, _br)
-    rep.floor("R04.14", 8)
+            _c11.r11_2(_axis, M, "R04.14", _obj, _br)
+    rep.floor("R04.14", 2)
     rep.rule("R04.7", "every tabulated letter permutation is the bijection its normalizer induces (the same material described from another origin gets the same letters)")
     TO.norm_perm(rep, ctx.tables, "R04.7")
     rep.rule("R04.9", "the structure is searched on a working copy whose atoms are inside the cell: atoms outside along a non-periodic axis always trigger "
